@@ -344,6 +344,28 @@ def check_reopen(ctx, fb):
             ", ".join(k for k, v in derive.items() if not v) + " missing"), loc(it))
 
 
+def check_reopen_agreement(ctx, fb):
+    """R15-3b: what a session records and what a reopen reconstructs must be the same predicate. The reopen rebuilds flag = (stored leaf !=
+    default leaf) because the flags themselves are not stored; the writers flag every written position. The two agree only if a writer
+    does not count a default-valued leaf as written (or if the flags were persisted)"""
+    it = get(fb, "pmtree", "set")
+    ctx.touch(it)
+    eng = Engine(fb, inline=lambda i: False)
+    cond = False
+    for p in eng.run(it):
+        w = [i for i, e in enumerate(p.trace) if e[0] == "write" and e[2] and e[2][0] == ("f", treefx.FLAGS) and cint(e[3]) == 1]
+        if not w:
+            continue
+        for j, e in enumerate(p.trace):
+            if j < w[0] and e[0] == "cond" and e[1][0] == "b" and isinstance(e[1][1], tuple) and e[1][1][0] == "eq" and P(3) in e[1][1][1:] and "default_leaf" in repr(e[1][1]):
+                cond = True
+    if cond:
+        ctx.ok("R15-3", "pmtree flags: session and reopen agree", "a default-valued write is treated the same way by the writer and by the reconstruction", loc(it))
+    else:
+        ctx.fail("R15-3", "pmtree flags: session and reopen agree", "PmTree::set marks every written position as non-empty, while a reopened tree marks a position as non-empty only if its stored leaf "
+                 "differs from the default leaf (the flags are not stored): a leaf written with the default value is listed as empty only after close and reopen", loc(it))
+
+
 FLAG_WRITERS = {
     # functions allowed to store into the empty-position flags; each is paired with a leaf write by R15-1 / R15-3 (or builds a fresh tree)
     "set", "set_range", "update_next", "delete", "override_range", "new", "default", "remove_indices", "remove_indices_and_set_leaves",
@@ -371,6 +393,7 @@ def run(ctx):
     check_batches(ctx, fb)
     check_listing(ctx, fb, "default")
     check_reopen(ctx, fb)
+    check_reopen_agreement(ctx, fb)
     check_flag_writers(ctx, fb)
     fx = ctx.fb("fixtures")
     try:
